@@ -1119,13 +1119,11 @@ class BaseRequest:
         if isinstance(value, dict):
             value = CacheControl(value, type="request")
 
-        if isinstance(value, CacheControl):
-            str_value = str(value)
-            env["HTTP_CACHE_CONTROL"] = str_value
-            env["webob._cache_control"] = (str_value, value)
-        else:
-            env["HTTP_CACHE_CONTROL"] = str(value)
-            env["webob._cache_control"] = (None, None)
+        # the object handed in is not bound to this request (its properties
+        # do not write back to the environ), so store the text only and let
+        # the getter parse and bind a live object
+        env["HTTP_CACHE_CONTROL"] = str(value)
+        env["webob._cache_control"] = (None, None)
 
     def _cache_control__del(self):
         env = self.environ
